@@ -30,15 +30,36 @@ def _tt(pred, base, col, vals):
         return None
 
 
-def find_per_rank_trim(m):
-    """qualified name of the per-rank trim: the callee of Trace._filter_irrelevant_gpu_kernels (nested closure or method) that applies both side filters"""
+def _called_names(db, mod, d, depth=2):
+    """names of the callables a function calls, following functions of hta reached by a bare name (also across modules) up to `depth`"""
+    out, todo, seen = set(), [(mod, d, 0)], set()
+    while todo:
+        mm, f, k = todo.pop()
+        for x in ast.walk(f):
+            if not isinstance(x, ast.Call):
+                continue
+            nm = H.name_id(x.func)
+            if nm is None:
+                continue
+            out.add(nm)
+            if k < depth and db is not None:
+                res = db.resolve_name(mm, nm)
+                if res is not None and res[1] in res[0].functions and (res[0].name, res[1]) not in seen:
+                    seen.add((res[0].name, res[1]))
+                    todo.append((res[0], res[0].functions[res[1]], k + 1))
+    return out
+
+
+def find_per_rank_trim(m, db=None):
+    """qualified name of the per-rank trim: the callee of Trace._filter_irrelevant_gpu_kernels (nested closure or method) that applies both side filters
+    (itself or through a helper of hta it calls)"""
     outer = m.func("Trace._filter_irrelevant_gpu_kernels")
     q2 = None
     for c_ in H.calls(outer, nested=False):
         nm_ = call_name(c_).split(".")[-1]
         for q_ in (f"Trace._filter_irrelevant_gpu_kernels.{nm_}", f"Trace.{nm_}", nm_):
             d_ = m.functions.get(q_)
-            if d_ is not None and d_ is not outer and {"CPUOperatorFilter", "GPUKernelFilter"} <= {H.name_id(x.func) for x in ast.walk(d_) if isinstance(x, ast.Call)}:
+            if d_ is not None and d_ is not outer and {"CPUOperatorFilter", "GPUKernelFilter"} <= _called_names(db, m, d_):
                 q2 = q_
     if q2 is None:
         raise AnalysisError("_filter_irrelevant_gpu_kernels: no per-rank callee applying CPUOperatorFilter and GPUKernelFilter was found")
@@ -53,7 +74,7 @@ def check_trim(db, chk, rule: str) -> None:
     # ------------------------------------------------------------------ trimming, per rank
     TR = ("param", "TR")
     # the per-rank trim is found by ROLE: the callee of _filter_irrelevant_gpu_kernels (nested closure or method) that applies both side filters
-    q2 = find_per_rank_trim(m)
+    q2 = find_per_rank_trim(m, db)
     ref2 = f"{TM}:{q2}"
     f2 = m.func(q2)
     where2 = m.loc(f2)
@@ -180,7 +201,7 @@ def check_trim_guard(db, chk, rule: str) -> None:
     calls = []
 
     def hook(I, name, pos, kw, node):
-        if name.split(".")[-1] == find_per_rank_trim(m).split(".")[-1]:
+        if name.split(".")[-1] == find_per_rank_trim(m, db).split(".")[-1]:
             calls.append(I.run)
             return Frame(("trimmed",))
         return NotImplemented
@@ -228,7 +249,7 @@ def check_step_set(db, chk, rule: str) -> None:
     m = db.mod(TM)
     f = m.func("Trace._filter_irrelevant_gpu_kernels")
     where = m.loc(f)
-    inner = m.func(find_per_rank_trim(m))
+    inner = m.func(find_per_rank_trim(m, db))
     # the closure variable (or parameter) the per-rank helper tests names against
     cand = set()
     for n in ast.walk(inner):
